@@ -7,19 +7,23 @@ except ImportError:
 
 READ, WRITE, AMO_ADD, AMO_AND, AMO_OR, AMO_SWAP, AMO_MIN, AMO_MINU, AMO_MAX, AMO_MAXU, AMO_XOR = 0, 1, 3, 4, 5, 6, 7, 8, 9, 10, 11
 AMOS = (AMO_ADD, AMO_AND, AMO_OR, AMO_SWAP, AMO_MIN, AMO_MINU, AMO_MAX, AMO_MAXU, AMO_XOR)
-FAMILIES = {'rw': (READ, WRITE), 'amo_arith': (READ, WRITE, AMO_ADD, AMO_AND, AMO_OR, AMO_SWAP, AMO_XOR), 'amo_minmax': (WRITE, AMO_MIN, AMO_MINU, AMO_MAX, AMO_MAXU)}
+FAMILIES = {'w': (WRITE,), 'rw': (READ, WRITE), 'amo_arith': (READ, WRITE, AMO_ADD, AMO_AND, AMO_OR, AMO_SWAP, AMO_XOR), 'amo_minmax': (WRITE, AMO_MIN, AMO_MINU, AMO_MAX, AMO_MAXU)}
 
 
-def z3_step(arr, t, a, l, d):
-  """one processed request: returns (new array, response len, response data)"""
-  nb = z3.If(l == 0, z3.BitVecVal(4, 3), z3.ZeroExt(1, l))
+def z3_step(arr, t, a, l, d, dw=32):
+  """one processed request on a port whose data field is dw bits wide (len field clog2(dw/8) bits, 0 = all dw/8 bytes):
+  returns (new array, response len, response data)"""
+  NB = dw // 8
+  lw = l.size()
+  nb = z3.If(l == 0, z3.BitVecVal(NB, lw + 1), z3.ZeroExt(1, l))
   rd = lambda k: z3.Select(arr, a + k)
-  old = z3.Concat(rd(3), rd(2), rd(1), rd(0))
-  mask = z3.If(nb == 1, z3.BitVecVal(0xff, 32), z3.If(nb == 2, z3.BitVecVal(0xffff, 32), z3.If(nb == 3, z3.BitVecVal(0xffffff, 32), z3.BitVecVal(0xffffffff, 32))))
+  old = z3.Concat(*[rd(k) for k in reversed(range(NB))])
+  mask = z3.BitVecVal((1 << dw) - 1, dw)
+  for k in range(1, NB): mask = z3.If(nb == k, z3.BitVecVal((1 << (8 * k)) - 1, dw), mask)
   oldm = old & mask
 
   def wr(ar, val):
-    for k in range(4):
+    for k in range(NB):
       ar = z3.If(z3.UGT(nb, k), z3.Store(ar, a + k, z3.Extract(8 * k + 7, 8 * k, val)), ar)
     return ar
   newv = d
@@ -28,19 +32,20 @@ def z3_step(arr, t, a, l, d):
                   (AMO_MINU, lambda m, x: z3.If(z3.ULT(m, x), m, x)), (AMO_MAXU, lambda m, x: z3.If(z3.UGT(m, x), m, x))):
     newv = z3.If(t == code, f(oldm, d), newv)
   arr2 = z3.If(t == READ, arr, wr(arr, newv))
-  rdata = z3.If(t == WRITE, z3.BitVecVal(0, 32), oldm)
-  rlen = z3.If(t == WRITE, z3.BitVecVal(0, 2), l)
+  rdata = z3.If(t == WRITE, z3.BitVecVal(0, dw), oldm)
+  rlen = z3.If(t == WRITE, z3.BitVecVal(0, lw), l)
   return arr2, rlen, rdata
 
 
-def py_step(mem, t, a, l, d):
+def py_step(mem, t, a, l, d, dw=32):
   """mem: dict addr -> byte.  returns (resp len, resp data)"""
-  nb = 4 if l == 0 else l
+  nb = dw // 8 if l == 0 else l
+  M = (1 << dw) - 1
   old = 0
   for k in reversed(range(nb)): old = (old << 8) | mem.get(a + k, 0)
-  sg = lambda v: v - (1 << 32) if v & (1 << 31) else v
+  sg = lambda v: v - (1 << dw) if v & (1 << (dw - 1)) else v
   if t == READ: return l, old
-  f = {WRITE: lambda m, x: x, AMO_ADD: lambda m, x: (m + x) & 0xffffffff, AMO_AND: lambda m, x: m & x, AMO_OR: lambda m, x: m | x, AMO_SWAP: lambda m, x: x,
+  f = {WRITE: lambda m, x: x, AMO_ADD: lambda m, x: (m + x) & M, AMO_AND: lambda m, x: m & x, AMO_OR: lambda m, x: m | x, AMO_SWAP: lambda m, x: x,
        AMO_XOR: lambda m, x: m ^ x, AMO_MIN: lambda m, x: m if sg(m) < sg(x) else x, AMO_MAX: lambda m, x: m if sg(m) > sg(x) else x,
        AMO_MINU: min, AMO_MAXU: max}[t]
   new = f(old, d)
